@@ -129,6 +129,15 @@ fn compile_pattern_chain(
                 &src_node_el.properties,
                 &mut local_predicates,
             );
+            // A start variable bound to null (by an earlier OPTIONAL MATCH) matches nothing.
+            let existing_plan = Plan::Filter {
+                input: Box::new(existing_plan),
+                predicate: Expression::Binary(Box::new(crate::ast::BinaryExpression {
+                    operator: crate::ast::BinaryOperator::IsNotNull,
+                    left: Expression::Variable(src_alias.clone()),
+                    right: Expression::Literal(crate::ast::Literal::Null),
+                })),
+            };
             let plan = apply_filters_for_alias(existing_plan, &src_alias, &local_predicates);
             apply_label_filters_for_alias(plan, &src_alias, &src_labels)
         } else if first_rel_is_bound {
